@@ -3779,37 +3779,114 @@ def quad_order(r: R, chk, qual: str = "heavy.LeastSquare.func2func", rule="QUAD-
 
 # ---------------------------------------------------------------------------------------------------------
 # AXIS-ORDER: the table of pairwise point products has its axes in the order of the product matrix (a, ., b)
+def _stmt_map(fn):
+    """for every node of the function: the innermost statement that contains it"""
+    out = {}
+
+    def rec(node, stmt):
+        for ch in ast.iter_child_nodes(node):
+            st = ch if isinstance(ch, ast.stmt) else stmt
+            out[id(ch)] = st
+            rec(ch, st)
+
+    rec(fn, None)
+    return out
+
+
+def operand_roots(fn, e, at, pos, operands, depth: int = 8):
+    """which of the `operands` (parameter names) the value of `e` read at statement `at` is computed from — data provenance only
+    (no control dependence): through locals, element-wise through tuple assignments, through loop / comprehension targets"""
+    out = set()
+    comp_targets = {}
+    for c in ast.walk(fn):
+        if isinstance(c, (ast.ListComp, ast.GeneratorExp, ast.SetComp, ast.DictComp)):
+            for g in c.generators:
+                for nm in _target_names(g.target):
+                    comp_targets.setdefault(nm, []).append(g.iter)
+    loops = [l for l in ast.walk(fn) if isinstance(l, ast.For)]
+
+    def go(x, at_, d):
+        for n in ast.walk(x):
+            if not (isinstance(n, ast.Name) and isinstance(n.ctx, ast.Load)):
+                continue
+            if n.id in operands:
+                out.add(operands.index(n.id))
+                continue
+            if d <= 0:
+                continue
+            st = reaching_assign(fn, at_, n.id, pos)
+            if isinstance(st, ast.Assign):
+                tg = st.targets[0]
+                if isinstance(tg, ast.Tuple) and isinstance(st.value, ast.Tuple) and len(tg.elts) == len(st.value.elts):
+                    for t_, v_ in zip(tg.elts, st.value.elts):
+                        if n.id in _target_names(t_):
+                            go(v_, st, d - 1)
+                else:
+                    go(st.value, st, d - 1)
+                continue
+            for l in loops:
+                if n.id in _target_names(l.target) and any(y is n for b in l.body for y in ast.walk(b)):
+                    go(l.iter, l, d - 1)
+            for it in comp_targets.get(n.id, []):
+                go(it, at_, d - 1)
+
+    go(e, at, depth)
+    return out
+
+
+def _pair_tables(fn):
+    """tables indexed [outer][inner]: `[[f(p, q) for q in Q] for p in P]`, `for p in P: T.append([f(p, q) for q in Q])` and
+    `for p in P: row = []; for q in Q: row.append(f(p, q)); T.append(row)` — (node, outer iterable, inner iterable)"""
+    out = []
+    inner_of_loop = set()
+    for c in ast.walk(fn):
+        if isinstance(c, ast.For):
+            for s in c.body:
+                for x in ast.walk(s):
+                    if isinstance(x, ast.Call) and isinstance(x.func, ast.Attribute) and x.func.attr == "append" and len(x.args) == 1:
+                        a0 = x.args[0]
+                        if isinstance(a0, ast.ListComp) and len(a0.generators) == 1 and not isinstance(a0.elt, ast.ListComp):
+                            out.append((c, c.iter, a0.generators[0].iter))
+                            inner_of_loop.add(id(a0))
+            inner = [s for s in c.body if isinstance(s, ast.For)]
+            if len(inner) == 1 and any(isinstance(x, ast.Call) and isinstance(x.func, ast.Attribute) and x.func.attr == "append" for s in inner[0].body for x in ast.walk(s)) \
+                    and any(isinstance(s, ast.Expr) and isinstance(s.value, ast.Call) and isinstance(s.value.func, ast.Attribute) and s.value.func.attr == "append" for s in c.body):
+                out.append((c, c.iter, inner[0].iter))
+    for c in ast.walk(fn):
+        if isinstance(c, ast.ListComp) and isinstance(c.elt, ast.ListComp) and len(c.generators) == 1 and len(c.elt.generators) == 1:
+            out.append((c, c.generators[0].iter, c.elt.generators[0].iter))
+    return out
+
+
 def axis_order(r: R, chk, qual: str, helper_suffix: str = "mul_spline_curve", rule="AXIS-ORDER"):
-    """`mul_spline_curve(U_a, U_b)[a][i][b]` multiplies basis function a of the FIRST vector with b of the SECOND.  A nested
-    comprehension `[[f(p, q) for q in Q] for p in P]` is indexed [P][Q]; contracted over both axes with matrix[:, i, :] its outer
-    loop therefore has to run over the points of the operand whose knot vector was passed first."""
+    """`mul_spline_curve(U_a, U_b)[a][i][b]` multiplies basis function a of the FIRST vector with b of the SECOND.  A table of
+    pairwise products built with the loop over P outside and the loop over Q inside is indexed [P][Q]; contracted over both axes
+    with matrix[:, i, :] its outer loop therefore has to run over the points of the operand whose knot vector was passed first."""
     ctx = r.root(qual)
     fi = ctx.fi
+    fn = fi.node
+    pos = _block_defs(fn)
+    stmt_of = _stmt_map(fn)
+    operands = list(fi.params[:2])
 
     def root(e):
-        v = ctx.val(e)
-        if v is None:
-            return None
-        rs = {d[1] for d in v.all_dep() if d[0] in ("P", "PF") and d[1] in (0, 1)}
+        rs = operand_roots(fn, e, stmt_of.get(id(e)), pos, operands)
         return next(iter(rs)) if len(rs) == 1 else None
 
     n = 0
-    calls = [c for c in ast.walk(fi.node) if isinstance(c, ast.Call) and seg(c.func).endswith(helper_suffix) and len(c.args) >= 2]
+    calls = [c for c in ast.walk(fn) if isinstance(c, ast.Call) and seg(c.func).endswith(helper_suffix) and len(c.args) >= 2]
     for c in calls:
         first, second = root(c.args[0]), root(c.args[1])
         if first is None or second is None or first == second:
             continue
-        for comp in ast.walk(fi.node):
-            if not (isinstance(comp, ast.ListComp) and isinstance(comp.elt, ast.ListComp) and len(comp.generators) == 1 and len(comp.elt.generators) == 1):
-                continue
-            outer, inner = root(comp.generators[0].iter), root(comp.elt.generators[0].iter)
+        for node, oit, iit in _pair_tables(fn):
+            outer, inner = root(oit), root(iit)
             if outer is None or inner is None or outer == inner:
                 continue
-            # only tables that are contracted with the product matrix (same branch: both under the same statement list is enough here)
             n += 1
             ok = outer == first and inner == second
-            chk.ob(rule, f"{qual}: `{seg(comp, 50)}` is indexed like `{seg(c, 40)}`", ok, loc=r.loc(ctx, comp),
-                   detail="" if ok else f"{qual}: the table `{seg(comp, 60)}` is indexed [{fi.params[outer]}][{fi.params[inner]}] but the product matrix of `{seg(c, 50)}` is indexed [{fi.params[first]}][.][{fi.params[second]}]: contracted over both axes, basis function a of one curve meets point b of the other — a shape error when the curves have different numbers of control points, a silently wrong curve when they happen to have the same number on different knot vectors",
+            chk.ob(rule, f"{qual}: `{seg(node, 50)}` is indexed like `{seg(c, 40)}`", ok, loc=r.loc(ctx, node),
+                   detail="" if ok else f"{qual}: the table `{seg(node, 60)}` is indexed [{fi.params[outer]}][{fi.params[inner]}] but the product matrix of `{seg(c, 50)}` is indexed [{fi.params[first]}][.][{fi.params[second]}]: contracted over both axes, basis function a of one curve meets point b of the other — a shape error when the curves have different numbers of control points, a silently wrong curve when they happen to have the same number on different knot vectors",
                    func=qual, construct="pairwise product table transposed")
     chk.floor(rule, f"tables of pairwise point products next to {helper_suffix} in {qual}", n, 1)
     return n
